@@ -86,7 +86,10 @@ def register(reg):
         r = z3.Const("r", smt.Ref)
         e = A(c, "BaseRelation", "engine")
         lk = A(c, "BaseRelation", "is_locked")
-        return [z3.ForAll([r], z3.Implies(z3.And(r != smt.NONE, ex.types.is_instance_z(r, ex.repo.cls("BaseRelation"))), engine_def(c, r, e(r))), patterns=[e(r)]),
+        co = A(c, "BaseRelation", "columns")
+        mt = A(c, "MarkerRelation", "target")
+        return [z3.ForAll([r], z3.Implies(z3.And(r != smt.NONE, ex.types.is_instance_z(r, ex.repo.cls("MarkerRelation"))), co(r) == co(mt(r))), patterns=[co(r)]),
+                z3.ForAll([r], z3.Implies(z3.And(r != smt.NONE, ex.types.is_instance_z(r, ex.repo.cls("BaseRelation"))), engine_def(c, r, e(r))), patterns=[e(r)]),
                 z3.ForAll([r], z3.Implies(z3.And(r != smt.NONE, ex.types.is_instance_z(r, ex.repo.cls("BaseRelation"))), locked_def(c, r, lk(r))), patterns=[lk(r)])]
 
     # definitions of the pure attributes (each property body is proved against exactly these facts above)
@@ -109,3 +112,219 @@ def register(reg):
     k.ens("result-stays-in-the-targets-engine", lambda c: B(eng(c, c.result.z) == eng(c, c.target.z)))
     k.ens("result-columns-truthful", lambda c: B(truthful_cols(c, c.result.z)))
     k.raises("EngineError", lambda c: B(z3.Not(V.supp(c.self.z, eng(c, c.target.z)))))
+
+
+# ====================================================================== _begin_apply / apply / engines
+def triv_sym(c):
+    return c.ex.pure_symbol("_columns._predicate:Predicate.as_trivial", [smt.Ref], smt.Tri)
+
+
+def ill_formed(c, op, C):
+    """C20: the request is ill-formed for a target with columns C (documented ColumnError cases)."""
+    t = smt.typ(op)
+    miss = z3.Not(z3.IsSubset(V.opreq(op), C))
+    terms = A(c, "Sort", "terms")(op)
+    jb = A(c, "PartialJoin", "binary")(op)
+    resolved = A(c, "Join", "max_columns")(jb) == smt.OptTagSet.ots_some(A(c, "Join", "min_columns")(jb))
+    return z3.Or(
+        z3.And(t == cid(c, "Calculation"), z3.Or(miss, z3.IsMember(A(c, "Calculation", "tag")(op), C))),
+        z3.And(t == cid(c, "Projection"), miss),
+        z3.And(t == cid(c, "Selection"), triv_sym(c)(A(c, "Selection", "predicate")(op)) != smt.TRI_T, miss),
+        z3.And(t == cid(c, "Sort"), V.SeqRef.info.len(terms) > 0, miss),
+        z3.And(t == cid(c, "PartialJoin"), resolved, miss),
+    )
+
+
+def register_apply(reg):
+    TOp = TRefT(reg_cls(reg, "UnaryOperation"))
+    TEngine = TRefT(reg_cls(reg, "Engine"))
+    TRel = TRefT(reg_cls(reg, "BaseRelation"))
+    PB = ("C03", "C05", "C14", "C20")
+
+    # -------------------------------------------------------------- _begin_apply
+    k = reg.contract("_unary_operation:UnaryOperation._begin_apply", virtual=True, pure=True, properties=PB,
+                     result_td=smt.TTupleT([TOp, TEngine]))
+    k.req("target-columns-truthful", lambda c: B(truthful_cols(c, c.target.z)))
+
+    def op2(c):
+        return c.result.items[0].z
+
+    def g2(c):
+        return c.result.items[1].z
+
+    k.ens("elided-only-if-a-no-op", lambda c: B(z3.Implies(smt.typ(op2(c)) == cid(c, "Identity"), V.sem(c.self.z, V.rows(c.target.z)) == V.rows(c.target.z))))
+    k.ens("kept-operation-valid-on-target", lambda c: B(V.uvalid(op2(c), cols(c, c.target.z))))
+    k.ens("kept-operation-means-the-same",
+          lambda c: B(z3.Implies(smt.typ(op2(c)) != cid(c, "Identity"), V.sem(op2(c), V.rows(c.target.z)) == V.sem(c.self.z, V.rows(c.target.z)))))
+    k.ens("kept-operation-supported-like-the-request",
+          lambda c: c.forall([(TRefT(None), "eng")], lambda g: B(z3.Implies(V.supp(c.self.z, g.z), V.supp(op2(c), g.z))), patterns=lambda g: [V.supp(op2(c), g.z)]))
+    k.ens("no-op-stays-in-the-targets-engine",
+          lambda c: B(z3.Implies(z3.And(smt.typ(op2(c)) == cid(c, "Identity"), smt.typ(c.self.z) != cid(c, "Identity")), g2(c) == eng(c, c.target.z))))
+    k.ens("preferred-engine-honoured",
+          lambda c: B(z3.Implies(z3.And(smt.typ(op2(c)) != cid(c, "Identity"), c.preferred_engine.z != smt.NONE), g2(c) == c.preferred_engine.z)))
+    k.ens("default-engine",
+          lambda c: B(z3.Implies(z3.And(smt.typ(op2(c)) != cid(c, "Identity"), c.preferred_engine.z == smt.NONE),
+                                 g2(c) == z3.If(smt.typ(c.self.z) == cid(c, "PartialJoin"), eng(c, A(c, "PartialJoin", "fixed")(c.self.z)), eng(c, c.target.z)))))
+    k.ens("same-kind-of-operation-or-identity", lambda c: B(z3.Or(smt.typ(op2(c)) == cid(c, "Identity"), smt.typ(op2(c)) == smt.typ(c.self.z))))
+    def pj_kept(c):
+        o, me = op2(c), c.self.z
+        jb, jb0 = A(c, "PartialJoin", "binary")(o), A(c, "PartialJoin", "binary")(me)
+        fx = A(c, "PartialJoin", "fixed")
+        Kmin = A(c, "Join", "min_columns")(jb)
+        return z3.Implies(z3.And(smt.typ(me) == cid(c, "PartialJoin"), smt.typ(o) == cid(c, "PartialJoin")),
+                          z3.And(A(c, "Join", "max_columns")(jb) == smt.OptTagSet.ots_some(Kmin), fx(o) == fx(me),
+                                 A(c, "PartialJoin", "fixed_is_lhs")(o) == A(c, "PartialJoin", "fixed_is_lhs")(me),
+                                 A(c, "Join", "predicate")(jb) == A(c, "Join", "predicate")(jb0),
+                                 Kmin == V.jresolve(jb0, cols(c, fx(me)), cols(c, c.target.z)),
+                                 z3.IsSubset(Kmin, cols(c, fx(me)))))
+
+    k.ens("join-resolved-against-this-target", lambda c: B(pj_kept(c)))
+    k.must("ill-formed-request-rejected", "ColumnError", lambda c: B(ill_formed(c, c.self.z, cols(c, c.target.z))))
+    k.raises("ColumnError", lambda c: B(z3.Or(z3.Not(V.uvalid(c.self.z, cols(c, c.target.z))), smt.typ(c.self.z) == cid(c, "PartialJoin"))))
+
+
+    ks = reg.derive("_operations._sort:Sort._begin_apply", "_unary_operation:UnaryOperation._begin_apply")
+    ks.inv(0, lambda c, i, env, seq: B(z3.IsSubset(V.fvtp(seq.z, i.z), cols(c, c.target.z))))
+
+
+def reg_cls(reg, name):
+    from pyvc.frontend import Repo
+
+    if not hasattr(reg, "_repo"):
+        reg._repo = Repo()
+    return reg._repo.cls(name)
+
+
+_prev_register = register
+
+
+def register(reg):  # noqa: F811
+    _prev_register(reg)
+    register_apply(reg)
+
+
+def pj_unshadowed(c, op, rel_z):
+    """Precondition restricting joins (C02/C03/C04 leave the provenance of columns exposed by both operands open)."""
+    jb = A(c, "PartialJoin", "binary")(op)
+    fx = A(c, "PartialJoin", "fixed")(op)
+    Fc = cols(c, fx)
+    K = V.jresolve(jb, Fc, cols(c, rel_z))
+    K2 = V.jresolve(jb, cols(c, rel_z), Fc)
+    return z3.Implies(smt.typ(op) == cid(c, "PartialJoin"),
+                      z3.And(z3.IsSubset(z3.SetIntersect(cols(c, rel_z), Fc), K), z3.IsSubset(z3.SetIntersect(cols(c, rel_z), Fc), K2), Fc == V.rcols(V.rows(fx)),
+                             z3.IsSubset(V.fv(A(c, "Join", "predicate")(jb)), z3.SetUnion(cols(c, rel_z), Fc))))
+
+
+def register_engines(reg):
+    TOp = TRefT(reg_cls(reg, "UnaryOperation"))
+    TEngine = TRefT(reg_cls(reg, "Engine"))
+    TRel = TRefT(reg_cls(reg, "BaseRelation"))
+    TMsgs = smt.TSeqT(smt.TStr)
+    SQL_UNVERIFIED = "implementations in lsst.daf.relation.sql are covered by the SQL contracts (C02/C17), not by this check"
+
+    # -------------------------------------------------------------- MarkerRelation.reapply (C15: locked nodes are never rebuilt)
+    k = reg.contract("_marker_relation:MarkerRelation.reapply", properties=("C15", "C14", "C03"), self_classes=("MarkerRelation", "Transfer"))
+    k.req("locked-nodes-are-never-rebuilt", lambda c: B(smt.typ(c.self.z) != cid(c, "Materialization")))
+    k.req("not-a-select-marker", lambda c: B(smt.typ(c.self.z) != cid(c, "Select")))
+    k.req("transfer-still-changes-engine", lambda c: B(z3.Implies(smt.typ(c.self.z) == cid(c, "Transfer"), A(c, "Transfer", "destination")(c.self.z) != eng(c, c.target.z))))
+    k.ens("unchanged-arguments-return-the-marker-itself",
+          lambda c: B(z3.Implies(z3.And(c.target.z == A(c, "MarkerRelation", "target")(c.self.z), c.payload.z == c.attr(c.self, "payload", old=True).z), c.result.z == c.self.z)))
+    k.ens("same-kind-of-marker-over-the-new-target",
+          lambda c: B(z3.And(smt.typ(c.result.z) == smt.typ(c.self.z), A(c, "MarkerRelation", "target")(c.result.z) == c.target.z,
+                             z3.Implies(smt.typ(c.self.z) == cid(c, "Transfer"), A(c, "Transfer", "destination")(c.result.z) == A(c, "Transfer", "destination")(c.self.z)))))
+
+    # -------------------------------------------------------------- Transfer.simplify / Materialization.simplify (C15)
+    k = reg.contract("_transfer:Transfer.simplify", properties=("C15",), pure=True)
+    k.ens("locked-target-is-never-looked-through", lambda c: B(z3.Implies(A(c, "BaseRelation", "is_locked")(c.target.z), c.result.z == smt.NONE)))
+    k.ens("shortcut-has-the-same-rows-in-the-destination-engine",
+          lambda c: B(z3.Implies(c.result.z != smt.NONE, z3.And(V.rows(c.result.z) == V.rows(c.target.z), eng(c, c.result.z) == c.destination.z,
+                                                                cols(c, c.result.z) == cols(c, c.target.z)))))
+    k = reg.contract("_materialization:Materialization.simplify", properties=("C15",), pure=True)
+    mat_or_leaf = lambda c, z: z3.Or(smt.typ(z) == cid(c, "Materialization"), smt.typ(z) == cid(c, "LeafRelation"))  # noqa: E731
+    k.ens("only-for-leaves-and-materializations-behind-same-engine-markers",
+          lambda c: B(z3.Implies(c.result.z, z3.Or(mat_or_leaf(c, c.target.z), is_marker(c, c.target.z)))))
+
+    # -------------------------------------------------------------- Engine methods (virtual)
+    k = reg.contract("_engine:Engine.conform", virtual=True, unverified_impls=("sql.",), properties=("C17", "C14"), note=SQL_UNVERIFIED)
+    k.ens("same-rows-engine-columns", lambda c: B(z3.And(V.rows(c.result.z) == V.rows(c.relation.z), eng(c, c.result.z) == eng(c, c.relation.z),
+                                                         cols(c, c.result.z) == cols(c, c.relation.z))))
+
+    k = reg.contract("_engine:Engine.append_unary", virtual=True, unverified_impls=("sql.",), properties=("C03", "C05", "C14"), note=SQL_UNVERIFIED)
+    k.req("operation-valid-on-target", lambda c: B(V.uvalid(c.operation.z, cols(c, c.target.z))))
+    k.req("target-columns-truthful", lambda c: B(truthful_cols(c, c.target.z)))
+    k.ens("rows-are-the-operation-applied", lambda c: B(V.rows(c.result.z) == V.sem(c.operation.z, V.rows(c.target.z))))
+    k.ens("stays-in-the-targets-engine", lambda c: B(eng(c, c.result.z) == eng(c, c.target.z)))
+    k.ens("result-columns-truthful", lambda c: B(truthful_cols(c, c.result.z)))
+    k.raises("EngineError", lambda c: B(z3.Not(V.supp(c.operation.z, eng(c, c.target.z)))))
+    k.raises("RelationalAlgebraError", lambda c: B(smt.typ(c.operation.z) == cid(c, "PartialJoin")))
+
+    k = reg.contract("_engine:Engine.transfer", virtual=True, unverified_impls=("sql.",), properties=("C15", "C14", "C03"), note=SQL_UNVERIFIED)
+    k.req("target-columns-truthful", lambda c: B(truthful_cols(c, c.target.z)))
+    k.ens("same-rows-in-the-requested-engine", lambda c: B(z3.And(V.rows(c.result.z) == V.rows(c.target.z), eng(c, c.result.z) == c.self.z,
+                                                                  cols(c, c.result.z) == cols(c, c.target.z), truthful_cols(c, c.result.z))))
+    k.raises("EngineError", lambda c: B(c.payload.z != smt.NONE))
+
+    k = reg.contract("_engine:Engine.materialize", virtual=True, unverified_impls=("sql.",), properties=("C15", "C19"), note=SQL_UNVERIFIED)
+    k.ens("same-rows-same-engine", lambda c: B(z3.And(V.rows(c.result.z) == V.rows(c.target.z), eng(c, c.result.z) == eng(c, c.target.z))))
+    k.raises("RelationalAlgebraError", None)
+
+    def bt_cells(c):
+        op, tree = c.operation.z, c.tree.z
+        cur = A(c, "UnaryOperationRelation", "operation")(tree)
+        unary = smt.typ(tree) == cid(c, "UnaryOperationRelation")
+        pj, pr = smt.typ(op) == cid(c, "PartialJoin"), smt.typ(op) == cid(c, "Projection")
+        past_proj = z3.And(unary, smt.typ(cur) == cid(c, "Projection"))
+        past_dedup = z3.And(unary, smt.typ(cur) == cid(c, "Deduplication"))
+        past_sort = z3.And(unary, smt.typ(cur) == cid(c, "Sort"))
+        return [("join-past-projection", z3.And(pj, past_proj)), ("join-past-sort", z3.And(pj, past_sort)), ("join-other", z3.And(pj, z3.Not(past_proj), z3.Not(past_sort))),
+                ("projection-past-deduplication", z3.And(pr, past_dedup)), ("projection-other", z3.And(pr, z3.Not(past_dedup))),
+                ("other", z3.And(z3.Not(pj), z3.Not(pr)))]
+
+    k = reg.contract("_engine:Engine.backtrack_unary", virtual=True, properties=("C03", "C15"), result_td=smt.TTupleT([TRel, smt.TBool, TMsgs]),
+                     split=bt_cells, split_all=True)
+    k.req("operation-valid-at-the-root", lambda c: B(V.uvalid(c.operation.z, cols(c, c.tree.z))))
+    k.req("tree-columns-truthful", lambda c: B(truthful_cols(c, c.tree.z)))
+    k.req("join-unshadowed", lambda c: B(pj_unshadowed(c, c.operation.z, c.tree.z)))
+    k.req("join-resolved", lambda c: B(z3.Implies(smt.typ(c.operation.z) == cid(c, "PartialJoin"),
+                                                  z3.And(A(c, "Join", "max_columns")(A(c, "PartialJoin", "binary")(c.operation.z)) == smt.OptTagSet.ots_some(A(c, "Join", "min_columns")(A(c, "PartialJoin", "binary")(c.operation.z))),
+                                                         z3.IsSubset(A(c, "Join", "min_columns")(A(c, "PartialJoin", "binary")(c.operation.z)), cols(c, A(c, "PartialJoin", "fixed")(c.operation.z)))))))
+    new = lambda c: c.result.items[0].z  # noqa: E731
+    done = lambda c: c.result.items[1].z  # noqa: E731
+    k.ens("stays-in-the-trees-engine", lambda c: B(z3.And(eng(c, new(c)) == eng(c, c.tree.z), truthful_cols(c, new(c)))))
+    k.ens("full-success-means-operation-applied", lambda c: B(z3.Implies(done(c), V.rows(new(c)) == V.sem(c.operation.z, V.rows(c.tree.z)))))
+    def narrowed(c):
+        P = A(c, "Projection", "columns")(c.operation.z)
+        return z3.And(smt.typ(c.operation.z) == cid(c, "Projection"), z3.IsSubset(P, cols(c, new(c))),
+                      V.s_proj(P, V.rows(new(c))) == V.s_proj(P, V.rows(c.tree.z)))
+
+    k.ens("partial-success-only-narrows-a-projection", lambda c: B(z3.Implies(z3.Not(done(c)), z3.Or(new(c) == c.tree.z, narrowed(c)))))
+    k.ens("locked-tree-untouched", lambda c: B(z3.Implies(A(c, "BaseRelation", "is_locked")(c.tree.z), z3.And(new(c) == c.tree.z, z3.Not(done(c))))))
+    k.raises("EngineError", None)
+    k.raises("RelationalAlgebraError", None)
+    k.raises("NotImplementedError", None)
+
+    # -------------------------------------------------------------- UnaryOperation.apply (C03 / C14 / C20)
+    k = reg.contract("_unary_operation:UnaryOperation.apply", properties=("C03", "C14", "C20"))
+    k.req("target-columns-truthful", lambda c: B(truthful_cols(c, c.target.z)))
+    k.req("join-unshadowed", lambda c: B(pj_unshadowed(c, c.self.z, c.target.z)))
+    k.ens("content-is-the-operation-applied-at-the-root", lambda c: B(V.rows(c.result.z) == V.sem(c.self.z, V.rows(c.target.z))))
+    k.ens("result-columns-truthful", lambda c: B(truthful_cols(c, c.result.z)))
+    k.ens("without-transfer-the-result-stays-in-the-targets-engine", lambda c: B(z3.Implies(z3.Not(c.transfer.z), eng(c, c.result.z) == eng(c, c.target.z))))
+    k.must("ill-formed-request-rejected-whatever-the-options", "ColumnError", lambda c: B(ill_formed(c, c.self.z, cols(c, c.target.z))))
+    k.raises("ColumnError", lambda c: B(z3.Or(z3.Not(V.uvalid(c.self.z, cols(c, c.target.z))), smt.typ(c.self.z) == cid(c, "PartialJoin"))))
+    k.raises("EngineError", None)
+    k.raises("RelationalAlgebraError", None)
+    k.raises("NotImplementedError", lambda c: B(z3.BoolVal(True)))
+
+    # Join.applied_common_columns is the specification's notion of the natural-join columns
+    k = reg.contract("_operations._join:Join.applied_common_columns", properties=("C14", "C20"), pure=True)
+    k.ens("natural-join-columns", lambda c: B(c.result.z == V.jresolve(c.self.z, cols(c, c.lhs.z), cols(c, c.rhs.z))))
+    k.raises("ColumnError", None)
+
+
+_prev_register2 = register
+
+
+def register(reg):  # noqa: F811
+    _prev_register2(reg)
+    register_engines(reg)
